@@ -68,10 +68,29 @@ func enclosingDefault(d *ast.FuncDecl, call *ast.CallExpr) (ast.Stmt, *ast.CaseC
 	return sw, cl
 }
 
-// flow facts: implementers that cannot reach a given switch (frozen, with reasons)
-var sealedFlowFacts = map[string]map[string]string{}
+// flow facts: implementers that cannot reach the switches of a function (frozen, with reasons)
+const ff1 = "FF1: Namespace.TypeDefinitions holds only records, enums and aliases (UnmarshalTypeDefinition builds nothing else; protocols go to Namespace.Protocols)"
+const ff2 = "FF2: a resolved type reference is never a protocol (resolveTypeByName rejects references to protocols)"
+const ff3 = "FF3: TypeChangeIncompatible never reaches code generation (validateChanges returns an error first); DefinitionChanged/StepAdded are handled by the callers (requiresExplicitConversion, writeChangeSwitchCase)"
 
-func exhaustive(c *core.Ctx, info *types.Info, sw ast.Stmt) (bool, string) {
+var sealedFlowFacts = map[string]map[string]string{
+	"internal/ndjsoncommon.GetJsonDataType":              {"*ProtocolDefinition": ff2},
+	"internal/python/common.TypeDefinitionDTypeSyntax":   {"*ProtocolDefinition": ff2},
+	"internal/matlab/types.WriteTypes":                   {"*GenericTypeParameter": ff1, "*ProtocolDefinition": ff1, "PrimitiveDefinition": ff1},
+	"internal/python/types.writeTypes":                   {"*GenericTypeParameter": ff1, "*ProtocolDefinition": ff1, "PrimitiveDefinition": ff1},
+	"internal/matlab/binary.typeDefinitionSerializer":    {"*ProtocolDefinition": ff2},
+	"internal/python/binary.typeDefinitionSerializer":    {"*ProtocolDefinition": ff2},
+	"internal/python/ndjson.typeDefinitionConverter":     {"*ProtocolDefinition": ff2},
+	"internal/cpp/binary.writeSerializers":               {"*EnumDefinition": "returned early by the first switch of writeSerializers", "*GenericTypeParameter": ff1, "*ProtocolDefinition": ff1, "PrimitiveDefinition": ff1},
+	"internal/cpp/binary.writeTypeConversion":            {"*TypeChangeIncompatible": ff3, "*TypeChangeDefinitionChanged": ff3, "*TypeChangeStepAdded": ff3},
+	"internal/cpp/binary.writeCompatibilitySerializers":  {"*DefinitionChangeIncompatible": ff3, "*DefinitionPair": "embedded helper, never used as a change by itself", "*EnumChange": "returned early by the first switch (enums need no compatibility serializers)", "*ProtocolChange": "protocol changes are emitted by writeProtocolMethods", "*ProtocolRemoved": "nothing to emit for a removed protocol"},
+	"internal/matlab/types.writeComputedFieldExpression": {"*": "visitor over an Expression tree: only Expression, Pattern, SwitchCase, SubscriptArgument-free nodes and types occur below a computed field; every Expression implementer has a case (rule X2)"},
+	"internal/python/types.writeComputedFieldExpression": {"*": "visitor over an Expression tree: every Expression implementer has a case (rule X2)"},
+	"internal/cpp/types.writeComputedFieldExpression":    {"*": "visitor over an Expression tree: every Expression implementer has a case (rule X2)"},
+}
+
+func exhaustive(c *core.Ctx, info *types.Info, sw ast.Stmt, fn string) (bool, string) {
+	facts := sealedFlowFacts[fn]
 	switch s := sw.(type) {
 	case *ast.TypeSwitchStmt:
 		ti := parseTypeSwitch(info, s)
@@ -88,10 +107,26 @@ func exhaustive(c *core.Ctx, info *types.Info, sw ast.Stmt) (bool, string) {
 			return false, "subject is not a sealed interface of pkg/dsl"
 		}
 		var missing []string
+		var excused []string
 		for _, impl := range implementersOf(c, iface) {
 			if _, ok := ti.covers(impl); !ok {
+				if r, ok := facts[typeLabel(impl)]; ok {
+					excused = append(excused, typeLabel(impl)+" ("+r+")")
+					continue
+				}
+				if r, ok := facts["*"]; ok && nt.Obj().Name() == "Node" {
+					excused = append(excused, typeLabel(impl))
+					_ = r
+					continue
+				}
 				missing = append(missing, typeLabel(impl))
 			}
+		}
+		if len(missing) == 0 && len(excused) > 0 {
+			if r, ok := facts["*"]; ok {
+				return true, "type switch covers what can occur: " + r
+			}
+			return true, "type switch covers every implementer of " + nt.Obj().Name() + " that can reach it; excluded by flow fact: " + strings.Join(excused, "; ")
 		}
 		if len(missing) > 0 {
 			return false, "implementers of " + nt.Obj().Name() + " without a case: " + strings.Join(missing, ", ")
@@ -104,10 +139,87 @@ func exhaustive(c *core.Ctx, info *types.Info, sw ast.Stmt) (bool, string) {
 		t := info.TypeOf(s.Tag)
 		nt := core.NamedOf(t)
 		if nt == nil || nt.Obj().Pkg() == nil {
-			return false, "tag is not of a named type"
+			// string tag compared with named constants sharing a prefix (FunctionSize, FunctionDimensionIndex, ...)
+			prefix := ""
+			var pkg *types.Package
+			used := map[string]bool{}
+			for _, st := range s.Body.List {
+				for _, e := range st.(*ast.CaseClause).List {
+					var id *ast.Ident
+					switch x := ast.Unparen(e).(type) {
+					case *ast.Ident:
+						id = x
+					case *ast.SelectorExpr:
+						id = x.Sel
+					}
+					if id == nil {
+						return false, "tag is not of a named type"
+					}
+					k, ok := info.Uses[id].(*types.Const)
+					if !ok {
+						return false, "tag is not of a named type"
+					}
+					pkg = k.Pkg()
+					used[k.Name()] = true
+					p := k.Name()
+					for i := 1; i < len(p); i++ {
+						if p[i] >= 'A' && p[i] <= 'Z' {
+							p = p[:i]
+							break
+						}
+					}
+					if prefix == "" {
+						prefix = p
+					} else if prefix != p {
+						return false, "tag is not of a named type"
+					}
+				}
+			}
+			if pkg == nil || prefix == "" {
+				return false, "tag is not of a named type"
+			}
+			var missing []string
+			for _, n := range pkg.Scope().Names() {
+				if k, ok := pkg.Scope().Lookup(n).(*types.Const); ok && strings.HasPrefix(k.Name(), prefix) && len(k.Name()) > len(prefix) && k.Name()[len(prefix)] >= 'A' && k.Name()[len(prefix)] <= 'Z' && !used[k.Name()] {
+					missing = append(missing, k.Name())
+				}
+			}
+			if len(missing) > 0 {
+				return false, "constants " + prefix + "* without a case: " + strings.Join(missing, ", ")
+			}
+			return true, "switch covers every " + prefix + "* constant"
 		}
 		if _, isBasic := nt.Underlying().(*types.Basic); !isBasic {
 			return false, "tag type is not an enumeration"
+		}
+		if nt.Obj().Name() == "PrimitiveDefinition" {
+			want := map[string]bool{}
+			for _, p := range primitives18 {
+				want[p] = true
+			}
+			for _, st := range s.Body.List {
+				for _, e := range st.(*ast.CaseClause).List {
+					if tv, ok := info.Types[e]; ok && tv.Value != nil {
+						delete(want, strings.Trim(tv.Value.ExactString(), "\""))
+						continue
+					}
+					// dsl.PrimitiveXxx variables
+					name := types.ExprString(e)
+					name = name[strings.LastIndex(name, ".")+1:]
+					if strings.HasPrefix(name, "Primitive") {
+						delete(want, strings.ToLower(strings.TrimPrefix(name, "Primitive")))
+					}
+				}
+			}
+			if len(want) > 0 {
+				var m []string
+				for n := range want {
+					m = append(m, n)
+				}
+				sort.Strings(m)
+				return false, "primitives without a case: " + strings.Join(m, ", ")
+			}
+			return true, "switch covers all 18 primitives"
 		}
 		// all package-level constants of that type
 		want := map[string]string{}
@@ -144,6 +256,7 @@ var _ = constant.Int
 
 // auditedAborts: "<func>/<construct>" -> invariant
 var auditedAborts = map[string]string{
+	"internal/cpp/types.writeComputedFieldExpression/default of switch on t.Operator": "BinaryOpPow is emitted as std::pow(l, r) by the branch in front of the switch",
 	"pkg/dsl/parser.(TypeTail).String/abort":                                          "participle union: exactly one of Optional|MapValue|Vector|Array is set by the grammar; the if-chain tests all four",
 	"pkg/dsl.convertType/abort":                                                       "participle union `(@@ | '(' @@ ')')`: Named or Sub is set",
 	"pkg/dsl.applyTypeTail/abort":                                                     "participle union: exactly one of Optional|MapValue|Vector|Array is set",
@@ -167,6 +280,16 @@ var auditedAborts = map[string]string{
 }
 
 func ruleAborts(fileScope func(string) bool, ruleID string, min int) func(c *core.Ctx) {
+	return ruleAbortsImpl(fileScope, ruleID, min, false)
+}
+
+// ruleSwitchDefaults: only aborts that are the default of a switch (sealed exhaustiveness);
+// plain precondition assertions of helper functions are out of scope.
+func ruleSwitchDefaults(fileScope func(string) bool, ruleID string, min int) func(c *core.Ctx) {
+	return ruleAbortsImpl(fileScope, ruleID, min, true)
+}
+
+func ruleAbortsImpl(fileScope func(string) bool, ruleID string, min int, onlyDefaults bool) func(c *core.Ctx) {
 	return func(c *core.Ctx) {
 		c.Rule(ruleID, "every explicit abort (panic / log.Panic / log.Fatal) is the default of a switch that is exhaustive over a sealed dsl interface or an enumeration, or an audited invariant", min)
 		found := map[string]bool{}
@@ -181,6 +304,9 @@ func ruleAborts(fileScope func(string) bool, ruleID string, min int) func(c *cor
 			info := p.TypesInfo
 			for i, a := range abortSites(c, d) {
 				sw, _ := enclosingDefault(d, a.call)
+				if sw == nil && onlyDefaults {
+					continue
+				}
 				label := "abort"
 				if sw != nil {
 					switch s := sw.(type) {
@@ -197,7 +323,7 @@ func ruleAborts(fileScope func(string) bool, ruleID string, min int) func(c *cor
 				key := fmt.Sprintf("%s/%s", c.FuncName(d), label)
 				_ = i
 				if sw != nil {
-					if ok, why := exhaustive(c, info, sw); ok {
+					if ok, why := exhaustive(c, info, sw, c.FuncName(d)); ok {
 						c.OK(ruleID, key, a.call.Pos(), why)
 						continue
 					} else if r, listed := auditedAborts[key]; listed {
